@@ -323,7 +323,7 @@ COMBO_DEFS = [
 CARRIER_DEFS = ["{note} = '$1'", "{opt} = '.safeMode = \'0\''", "{wrap} = '$1\n$2'", "{rep} = '.htmlReplacement = \'$1\''", "{qd} = '$1 = \'<s>|</s>\''"]
 CARRIER_USES = ["{note|.safeMode='0'}", "{note|.safeMode = '0'}", "{opt}", "{note|.htmlReplacement='smuggled'}", "{rep|smuggled}", "{note|.reset='true'}",
                 "{wrap|.safeMode='0'|next}", "{note|* = '<b>\\|</b>'}", "{qd|~}", "{note|/teh/ = 'the'}", "{note|\\|code\\| = '<pre>\\|</pre>'}",
-                "{note|\{smug\} = 'v'}", "{note|# H}", "{note|// c}"]
+                "{note|\\{smug\\} = 'v'}", "{note|# H}", "{note|// c}"]
 
 COMBO_PENDING = ['.k1 k2', '.#i7', '.#I7', '."a:b"', '."c:d;"', '.[title="{u}"]', '.k #j "e:f" [data-x="1"]', '.+skip', '.-macros', '.-spans', '.+macros +spans',
                  '.-specials', '.+container', '.-container', '.+specials -spans', '.k1\n.k2 #i8', '.-macros\n.+skip']
